@@ -2,13 +2,14 @@
    Property theorems only; proofs in proofs/NoopProofs.v, definitions in model/Noop.v. *)
 From Coq Require Import List NArith Bool.
 From SV Require Import lib.Bytes model.Graph model.GraphInv model.GraphDump model.Noop gen.GenNoop
-  proofs.NoopProofs proofs.NoopBridge.
+  proofs.NoopProofs proofs.NoopBridge proofs.NoopCone2.
 Import ListNotations.
 Open Scope N_scope.
 
 (* ------------------------------------------------------------------------------------------ *)
 (* The full sentence, on histories of transactions of the stored workflow.  NOT proved as a    *)
-(* whole: see the theorems below for the parts that are, and design.d/C04.md.                  *)
+(* whole: its first two clauses are C04_noop_after_successful_history; for the third see        *)
+(* C04_cone_invariant_partial2 and design.d/C04.md (what stays partial).                        *)
 (* ------------------------------------------------------------------------------------------ *)
 
 (* successful_history (model/Noop.v): a history ends in a successful build when nothing runs, no
@@ -237,6 +238,68 @@ Theorem C04_cone_partial :
       (forall l, In l (executed ops q) -> in_cone q E G l).
 Proof. exact cone_partial. Qed.
 
+(* PARTIAL 2 (operations covered: cone_op2 in model/Noop.v): the cone relative to the EVOLVING graph.
+   From a quiescent, well-formed state q, through any sequence of the transactions of a rebuild -
+   EXTERNAL re-hash of edited static sources, CONFIRMED results for files of the cone, cone steps
+   marked PENDING, dispatch under the guard, validate -> PENDING, reset_for_rerun (detaches created
+   steps, static files, trees; drops dynamic edges), _reset_step_to_pending, define_step by a RUNNING
+   step (new step, partial recycle, full recycle), declare_static and amend_step by a RUNNING step,
+   completions (successful, skipped, failed, deferred), hold / release - the following holds for
+   tcone E G h, the least set of keys that contains the edited files E and the steps G and is closed
+   under every dependency row and creator link of every state the rebuild went through and under the
+   declarations made during the rebuild by a cone step:
+   - every step whose state differs from its state in q is in the cone;
+   - every node that is attached now and was not attached in q (new nodes included) is in the cone;
+   - every step that pop_next_job hands out, hence every step for which a command is executed,
+     is in the cone.
+   Protocol clauses (cone_op2): a job that is completed / reset / validated is in flight; define_step,
+   declare_static, amend_step are requested by a RUNNING step; the paths of a hash update at a
+   completion are in the cone together with their creators (outputs of the completing step are);
+   an idle optional step of q (attached and PENDING in q) is dispatched only if it is in the cone
+   (C04_cone_idle_optional_clause_needed shows that this clause cannot be dropped); an orphaned
+   (creator-less) BUILT file adopted as an input of a declaration is in the cone. *)
+Theorem C04_cone_invariant_partial2 :
+  forall (q : st) (E G : list str) (ops : list op),
+    quiescent_success_b q = true -> inv_core_b q = true ->
+    cone_ops2 q E G [] q ops ->
+    let s := run_ops ops q in
+    let h := rebuild_hist [] q ops in
+    (forall l x, sstate_of l s = Some x -> sstate_of l q = Some x \/ tcone E G h (KStep, l)) /\
+    (forall k, attached k s = true -> attached k q = true \/ tcone E G h k) /\
+    (forall l, In l (dispatched ops) -> tcone E G h (KStep, l)) /\
+    (forall l, In l (executed ops q) -> tcone E G h (KStep, l)).
+Proof.
+  intros q E G ops Hq HI. exact (cone_invariant_partial2 q E G Hq (inv_core_no_file_creator q HI) ops).
+Qed.
+
+(* The executable versions used by the E2 correspondence are sound: tcone_b decides the cone, and a
+   rebuild accepted by cone_ops2_b satisfies the hypotheses of C04_cone_invariant_partial2. *)
+Theorem C04_cone_checker_sound :
+  (forall E G h k, tcone_b E G h k = true <-> tcone E G h k) /\
+  (forall q E G ops, cone_ops2_b q E G q ops = true -> cone_ops2 q E G [] q ops).
+Proof. exact (conj tcone_b_iff cone_ops2_b_ok). Qed.
+
+(* The clause about idle optional steps cannot be dropped: a successful history (two plans, an
+   unused OPTIONAL step u declared by the first), an edit of the second plan's script, a rebuild in
+   which every transaction satisfies its protocol clause except the dispatch of u (reason 6), which
+   the dispatch guard allows because the rerun second plan now consumes u's output: u is executed
+   and is outside the cone. *)
+Theorem C04_cone_idle_optional_clause_needed :
+  exists (cap : N) (hist : list xop) (E : list str) (ops : list op) (l : str),
+    successful_history cap hist /\
+    let q := run_xops hist (init_st cap) in
+    inv_core_b q = true /\
+    cone_ops2_first_bad q E [] 0 [] q ops = Some (pred (length ops), 6) /\
+    dispatch_guard l (run_ops (removelast ops) q) = true /\
+    In l (executed ops q) /\
+    ~ tcone E [] (rebuild_hist [] q ops) (KStep, l).
+Proof.
+  exists 3, ExO.hist, [ExO.p2_py], ExO.ops, ExO.u.
+  destruct ExO.facts as [H1 [_ [H3 [_ [H5 [H6 [H7 _]]]]]]].
+  split; [exact H1|]. change (run_xops ExO.hist (init_st 3)) with ExO.q.
+  split; [exact H3|]. split; [exact H5|]. split; [exact H6|]. split; [exact H7 | exact ExO.u_outside_cone].
+Qed.
+
 (* The hand-written model agrees with the facts regenerated from the source on every run:
    Graph.transition is workflow._HASH_TRANSITIONS (all 64 keys, present or absent); a re-hash
    result reaches update_file_hashes exactly when the rule of Executor._run_hash_job says so;
@@ -329,3 +392,17 @@ Example C04_env_aba_missed_without_store :
   rescan_env_steps (rescan_env_store true vals curB Ex.q) curA Ex.q = [Ex.t].
 Proof. vm_compute. repeat split; reflexivity. Qed.
 
+(* a rebuild that changes nodes and edges: plan.py is edited, the plan step is checked, not skipped,
+   rerun; it re-declares its static file and t (full recycle), drops u, defines a new step w; t is
+   only checked (skipped), w is executed.  The hypotheses of C04_cone_invariant_partial2 hold. *)
+Example C04_example_rebuild_with_plan_rerun :
+  quiescent_success_b ExR.q = true /\ inv_core_b ExR.q = true /\
+  cone_ops2 ExR.q [ExR.plan_py] [] [] ExR.q ExR.ops /\
+  cone_ops2_b ExR.q [ExR.plan_py] [] ExR.q ExR.ops = true /\
+  executed ExR.ops ExR.q = [ExR.plan; ExR.w] /\ dispatched ExR.ops = [ExR.plan; ExR.plan; ExR.t; ExR.w] /\
+  attached (KStep, ExR.u) (run_ops ExR.ops ExR.q) = false.
+Proof.
+  destruct ExR.facts as [H1 [H2 [H3 [H4 [_ [_ [H7 _]]]]]]].
+  split; [exact H1|]. split; [exact H2|]. split; [exact ExR.ok|]. split; [exact ExR_checker|].
+  split; [exact H3|]. split; [exact H4 | exact H7].
+Qed.
